@@ -7,6 +7,7 @@ request:  `names	hist	<op>;<op>;…`   with
   op    := `c,<d|->,<s|->,<cd 0|1>,<cs 0|1>`     connect(database, schema) on an instance with create_*_on_connect
          | `s,<i>,<stmt>`                        statement on connection i
   stmt  := `cd,<d>,<ifx>` | `dd,<d>` | `ud,<d>` | `ub,<x>` | `sc,<ifx>,<sref>` | `sd,<ifx>,<sref>` | `su,<sref>`
+         | `w,<is|cs|cl|uf|du|mg>,<target tref>,<source tref>` (two-table statements)
          | `tc,<t|v>,<v>,<ifx>,<tref>` | `td,<t|v>,<ifx>,<tref>` | `ti,<v>,<tref>` | `ts,<tref>` | `j,<tref>,<tref>` | `x`
   sref  := `<s>` | `<d>.<s>`        tref := `<n>` | `<s>.<n>` | `<d>.<s>.<n>`      (names are numbers)
 reply:    `steps=<step>;<step>;…	final=<catalog>` one step per op:
@@ -50,6 +51,11 @@ def pStmt : List String → Option Stmt
   | ["ti", v, r] => do let v ← pNat v; let r ← pTRef r; pure (.tab (.insert v) r)
   | ["ts", r] => (pTRef r).map (.tab .select)
   | ["j", a, b] => do let a ← pTRef a; let b ← pTRef b; pure (.join a b)
+  | ["w", op, a, b] => do
+    let op ← (match op with
+      | "is" => some COp.insertSelect | "cs" => some .ctas | "cl" => some .clone
+      | "uf" => some .updateFrom | "du" => some .deleteUsing | "mg" => some .merge | _ => none)
+    let a ← pTRef a; let b ← pTRef b; pure (.two op a b)
   | ["x"] => some .selectCtx
   | _ => none
 
@@ -107,7 +113,10 @@ def stepOut (w : World) : Op → String × World
     let r := Impl.step w i st
     let cohBefore := match w.sessions[i]? with | some ss => ss.coherent w.cat | none => true
     let sr := Spec.step w.abs i st
-    let key := match region w i st with | some k => k.name | none => "-"
+    let dbl := match w.sessions[i]? with | some ss => st.doubleFault w.cat ss.path | none => false
+    let rkey := match region w i st with | some k => k.name | none => "-"
+    let key := if st.unexplored then "unsupported"
+               else if dbl && r.1 != .err .noDb && r.1 != .err .noSchema then rkey ++ "+anyerror" else rkey
     -- spec contexts: of a connection that was coherent before the step (others: `?`)
     let specCtx (j : Nat) : Option Ctx :=
       match w.sessions[j]? with
